@@ -27,8 +27,9 @@ import (
 //     row-scanning helper) the destination each selected column lands in.
 //
 // Not decided: whether a transaction that inserts the row also fills the column
-// on every path, beyond the simple shape "an UPDATE without WHERE of that column
-// on the same *sql.Tx, in the same function, on every path to Commit".
+// on every path, beyond the simple shape "an UPDATE of that column (without
+// WHERE, or WHERE k = ? bound like the INSERT's k) on the same *sql.Tx, in the
+// same function, on every path to Commit".
 
 const (
 	qRowsScan = "database/sql.(*Rows).Scan"
@@ -639,10 +640,100 @@ func (in *c04Insert) nullColumns(defs []*c04ColDef) (null map[string]string, ord
 	return null, order, failing
 }
 
+// reachesInsertedRow reports whether an UPDATE executed in the function of the
+// INSERT applies to the inserted row: it has no WHERE, or its WHERE is `k = ?`
+// bound to the very expression (a variable or field that is not assigned in
+// between) the INSERT binds to column k.
+func (in *c04Insert) reachesInsertedRow(s *kit.SQLSite, st kit.SQLStmt) bool {
+	if st.WhereRaw == "" {
+		return true
+	}
+	root := in.site.F.Root()
+	if s.F.Root() != root || s.Recv != "tx" || len(in.execs) != 1 || in.execs[0].F.Root() != root {
+		return false
+	}
+	fs := strings.Fields(st.WhereRaw)
+	if len(fs) != 3 || fs[1] != "=" || fs[2] != "?" || len(st.Where) != 1 || strings.ToLower(fs[0]) != st.Where[0] {
+		return false
+	}
+	if strings.Contains(st.Raw, "?1") || s.Call.Ellipsis.IsValid() || len(s.Args) != st.Params || st.Params == 0 {
+		return false
+	}
+	ins := in.execs[0]
+	n, ok := in.bindings(in.st.Cols)[st.Where[0]]
+	if !ok || ins.Call.Ellipsis.IsValid() || n > len(ins.Args) {
+		return false
+	}
+	info := root.Info()
+	a, b := ast.Unparen(ins.Args[n-1]), ast.Unparen(s.Args[st.Params-1])
+	if !kit.SameExpr(info, a, b) {
+		return false
+	}
+	// a variable or a field path, whose variable is not written between the two statements
+	base := a
+	for {
+		sel, ok := base.(*ast.SelectorExpr)
+		if !ok {
+			break
+		}
+		base = ast.Unparen(sel.X)
+	}
+	id, ok := base.(*ast.Ident)
+	if !ok {
+		return false
+	}
+	v := kit.ObjOf(info, id)
+	lo, hi := ins.Call.Pos(), s.Call.End()
+	if lo > hi {
+		return false
+	}
+	written := false
+	ast.Inspect(root.Body, func(x ast.Node) bool {
+		if x == nil || x.End() < lo || x.Pos() > hi {
+			return x != nil && x.Pos() <= hi
+		}
+		baseOf := func(e ast.Expr) types.Object {
+			for {
+				switch y := ast.Unparen(e).(type) {
+				case *ast.SelectorExpr:
+					e = y.X
+				case *ast.IndexExpr:
+					e = y.X
+				case *ast.StarExpr:
+					e = y.X
+				case *ast.Ident:
+					return kit.ObjOf(info, y)
+				default:
+					return nil
+				}
+			}
+		}
+		switch y := x.(type) {
+		case *ast.AssignStmt:
+			for _, l := range y.Lhs {
+				if y.Pos() >= lo && baseOf(l) == v {
+					written = true
+				}
+			}
+		case *ast.IncDecStmt:
+			if y.Pos() >= lo && baseOf(y.X) == v {
+				written = true
+			}
+		case *ast.UnaryExpr:
+			// &v handed to somebody
+			if y.Op.String() == "&" && y.Pos() >= lo && baseOf(y.X) == v {
+				written = true
+			}
+		}
+		return true
+	})
+	return !written
+}
+
 // filledInTx looks for the statement that gives col its value in the
-// transaction of the INSERT.  "proved": an UPDATE of the column without WHERE on
-// the same *sql.Tx in the same function lies on every path from the INSERT to
-// Commit.  "maybe": such an UPDATE exists (here or in a helper that receives the
+// transaction of the INSERT.  "proved": an UPDATE of the column that reaches the
+// inserted row (reachesInsertedRow), on the same *sql.Tx in the same function,
+// lies on every path from the INSERT to Commit.  "maybe": such an UPDATE exists (here or in a helper that receives the
 // transaction) but not in that shape.  "": there is none.
 func (in *c04Insert) filledInTx(c *kit.Ctx, m *storeModel, col string) (verdict, what string) {
 	if !in.onTx || in.tx == nil {
@@ -654,7 +745,7 @@ func (in *c04Insert) filledInTx(c *kit.Ctx, m *storeModel, col string) (verdict,
 		for _, st := range s.Stmts {
 			if st.Verb == "UPDATE" && st.Table == table && contains(st.Cols, col) {
 				hit = true
-				if st.WhereRaw != "" || len(s.Stmts) != 1 {
+				if len(s.Stmts) != 1 || !in.reachesInsertedRow(s, st) {
 					where = true
 				}
 			}
@@ -756,7 +847,7 @@ func (in *c04Insert) filledInTx(c *kit.Ctx, m *storeModel, col string) (verdict,
 	}
 	g.Run(kit.NewS(), st.Client())
 	if len(inserts) == 0 || commits == 0 || open {
-		return "maybe", "an UPDATE of " + col + " on the same transaction in " + root.Name + ", not on every path from the INSERT to Commit"
+		return "maybe", "an UPDATE of " + col + " on the same transaction in " + root.Name + " that does not lie on every path from the INSERT to Commit"
 	}
 	return "proved", "UPDATE " + table + " SET " + col + " on the same transaction on every path to Commit"
 }
@@ -834,14 +925,14 @@ func c04Nullability(c *kit.Ctx, m *storeModel, r8 *kit.Rule) {
 			case "proved":
 				good = append(good, col+" ("+null[col]+"): "+what)
 			case "maybe":
-				o.Undecided("column %s is NULL in the inserted row (%s); it may be filled in by %s, which is not proved for every path; reader that needs it: %s",
+				o.Undecided("column %s is NULL in the inserted row (%s); it may be filled in by %s; that every committed row has it set is not proved; reader that needs it: %s",
 					col, null[col], what, no[0])
 			default:
 				if in.onTx {
-					o.Violation("`%s` runs on %s and leaves %s NULL (%s); no statement of that transaction in %s sets it, so the committed row cannot be read back: %s fails with \"converting NULL to … is unsupported\"%s",
+					o.Violation("`%s` runs on %s and leaves %s NULL (%s); no statement of that transaction in %s sets it, so the committed row cannot be read back: %s, which fails with \"converting NULL to … is unsupported\"%s",
 						in.st.Raw, handle, col, null[col], root.Name, no[0], c04More(no))
 				} else {
-					o.Violation("`%s` runs on %s and leaves %s NULL (%s); a crash between this INSERT and the statement that fills %s leaves a row that the store cannot scan: %s fails with \"converting NULL to … is unsupported\" on every later read (for the meta row: the store does not start)%s",
+					o.Violation("`%s` runs on %s and leaves %s NULL (%s); a crash between this INSERT and the statement that fills %s leaves a row that the store cannot scan: %s, which fails with \"converting NULL to … is unsupported\" on every later read (for the meta row: the store does not start)%s",
 						in.st.Raw, handle, col, null[col], col, no[0], c04More(no))
 				}
 			}
